@@ -8,7 +8,7 @@ use crate::dbexec::*;
 use crate::dbmodel::*;
 use crate::dbprog::*;
 use crate::simfs::SimFs;
-use crate::with_db;
+use dbsim::with_db;
 use agdb::{DbImpl, StorageData};
 use serde::{Deserialize, Serialize};
 use simcore::{Fnv, Rng};
